@@ -135,6 +135,24 @@ def run(ctx, report: Report) -> None:
         r2.obligation(not problems)
         for p in problems:
             r2.violation(f'{c} {p[:60]}', mod.where(cls), f'{c} {p}')
+    # a class that defines __slots__ (itself or through a base of the package) can only be pickled with protocols 0 and 1 when it
+    # is registered with copyreg or defines __reduce__ / __reduce_ex__ / __getstate__: every class whose instances hang off a
+    # compiled selector (the css_types classes, SoupSieve) must satisfy that
+    carried = [f'css_types.{cn}' for cn in src.mods['css_types'].classes] + (['css_match.SoupSieve'] if 'SoupSieve' in src.mods['css_match'].classes else [])
+    for c in carried:
+        mro = src.mro(c)
+        slotted = [b for b in mro if any(isinstance(st, ast.Assign) and any(isinstance(t, ast.Name) and t.id == '__slots__' for t in st.targets)
+                                         for st in src.cls(b)[1].body)]
+        has_reduce = any(src.find_method(b, m_) for b in mro[:1] + mro[1:] for m_ in ('__reduce__', '__reduce_ex__', '__getstate__'))
+        ok = not slotted or c in registered or has_reduce
+        r2.instance({'class': c, 'defines_or_inherits___slots__': bool(slotted), 'registered': c in registered, 'own_reducer': has_reduce}, key=f'slots|{c}')
+        r2.obligation(ok)
+        if not ok:
+            mn_, _, cn_ = c.partition('.')
+            r2.violation(f'{c} has __slots__ but no reducer', src.mods[mn_].where(src.mods[mn_].classes[cn_]),
+                         f'{c} gets __slots__ from {slotted[0]} but is neither registered with pickle_register nor defines __reduce__ / '
+                         f'__getstate__: pickle protocols 0 and 1 refuse such objects (TypeError), so a compiled selector that carries one - '
+                         f'a namespace or custom map - can no longer be pickled with them')
     from .sem import immutable_table
     immutable_table(ctx, r2, classes[1:])
 
